@@ -1248,9 +1248,13 @@ fn known_inputs() -> Vec<(String, String)> {
         // repaired in round 7: must stay quiet
         ("r7:stencil-fill-empty-rows", "⬚0⧈□ 65536 ↯3_0 0\n⬚0⧈∘ 65536 ↯3_0 0".to_string()),
         ("r7:try-three-functions", "F ← ⍣(⨬(0 3 ⍤\"x\"|1)|⍤\"mid\"0 ¯ ⍤\"x\" +|3 ×)\nF 0 5 6 7".to_string()),
-        ("open:validate-box-string", "# Experimental!\n⊨ {\"ab\"} 5".to_string()),
-        ("open:noise-octaves", "# Experimental!\nnoise 1 1e10 [[0]]".to_string()),
-        ("open:tuples-inf-size", "⧅≠ ∞ 1e10".to_string()),
+        // repaired in round 8: must stay quiet
+        ("r8:validate-box-string", "# Experimental!\n⊨ {\"ab\"} 5".to_string()),
+        ("r8:noise-octaves", "# Experimental!\nnoise 1 1e10 [[0]]".to_string()),
+        ("r8:tuples-inf-size", "⧅≠ ∞ 1e10".to_string()),
+        ("r8:validate-box-string-arg", "# Experimental!\n⊨ [□{3 \"ab\"}] 5".to_string()),
+        ("r8:noise-octaves-huge", "# Experimental!\nnoise 1 1e308 ↯1_1 ⇡6".to_string()),
+        // still open after the last round
         ("open:nested-under", format!("{}⊢ [1]", "⍜".repeat(26))),
     ];
     v.into_iter().map(|(n, s)| (n.to_string(), s)).collect()
